@@ -32,6 +32,7 @@ for vf in sorted(glob.glob('/tmp/mut/*/out/m*/verify.json')):
         'checks_run': old.get('checks_run', {}),
     }
     for c, r in v.get('checks', {}).items():
-        m['checks_run'].setdefault(c, {})[r['tier'] + '@first'] = 'caught' if r['exit'] == 1 else f'missed (exit {r["exit"]})'
+        c = c.split(':')[0]
+        m['checks_run'].setdefault(c, {})[r['tier'] + '@' + r.get('stage', 'first')] = 'caught' if r['exit'] == 1 else f'missed (exit {r["exit"]})'
     json.dump(m, open(os.path.join(dst, 'meta.json'), 'w'), indent=1)
     print('kept', dst, m['checks_run'])
